@@ -237,9 +237,29 @@ def run_once(script, T=2, entry="forms", extended=False):
             raise RuntimeError("code generation failed")
         return ["/*h*/", "/*c*/"], (".h", ".c")
 
+    nstat = [0]
+
     class FakePath(type(Path())):
         def mkdir(self, *a, **k):
             return None
+
+        # operations on the lock file are part of the shared-file environment
+        def stat(self, *a, **k):
+            if str(self).endswith(".c"):
+                nstat[0] += 1
+                if nstat[0] > 2:
+                    raise Unbounded("the lock file is examined a third time in one request (unbounded re-entry)")
+                o = env.choose(("stat_c",), ["empty", "nonempty", "absent"])
+                if o == "absent":
+                    raise FileNotFoundError(str(self))
+                return types.SimpleNamespace(st_size=0 if o == "empty" else 100)
+            return super().stat(*a, **k)
+
+        def unlink(self, missing_ok=False):
+            if str(self).endswith(".c"):
+                env.choose(("unlink_c",), ["ok"])
+                return None
+            return super().unlink(missing_ok=missing_ok)
 
     names = ["open", "os", "time", "cffi", "importlib", "Path"]
     saved = {k: getattr(jit, k) for k in names if hasattr(jit, k)}
@@ -416,6 +436,9 @@ class Model:
                         upd_cached = z3.If(z3.And(at, self.cached[t] == ABSENT), PRESENT, upd_cached)
                     elif kind == "exists":
                         s.add(z3.Implies(at, z3.And(z3.If(self.cached[t] == PRESENT, go(True), go(False)), bnext, sac_keep)))
+                    elif kind == "stat_c":
+                        # size of the lock file: absent / empty until cffi has written the source / non-empty afterwards
+                        s.add(z3.Implies(at, z3.And(z3.If(self.c[t] == ABSENT, go("absent"), z3.If(self.so[t] == SO_NONE, go("empty"), go("nonempty"))), bnext, sac_keep)))
                     elif kind in ("codegen", "cc") or (kind == "write" and "fail" in ch):
                         ok = go("ok")
                         bad = go("fail")
@@ -433,6 +456,8 @@ class Model:
                             upd_so = z3.If(at, SO_COMPLETE, upd_so)
                         elif kind == "rename_c_failed":
                             upd_failed = z3.If(z3.And(at, self.c[t] == PRESENT), PRESENT, upd_failed)
+                            upd_c = z3.If(at, ABSENT, upd_c)
+                        elif kind == "unlink_c":
                             upd_c = z3.If(at, ABSENT, upd_c)
                         elif kind == "load":
                             upd_bad = z3.If(z3.And(at, self.so[t] != SO_COMPLETE), True, upd_bad)
@@ -630,6 +655,21 @@ def replay_trace(trace, N, T, entry="forms"):
     class FakePath(type(Path())):
         def mkdir(self, *a, **k):
             return None
+
+        def stat(self, *a, **k):
+            if str(self).endswith(".c"):
+                step(("stat_c",))
+                if not state["c"]:
+                    raise FileNotFoundError(str(self))
+                return types.SimpleNamespace(st_size=0 if state["so"] == 0 else 100)
+            return super().stat(*a, **k)
+
+        def unlink(self, missing_ok=False):
+            if str(self).endswith(".c"):
+                step(("unlink_c",))
+                state["c"] = False
+                return None
+            return super().unlink(missing_ok=missing_ok)
 
     names = ["open", "os", "time", "cffi", "importlib", "Path"]
     saved = {k: getattr(jit, k) for k in names if hasattr(jit, k)}
